@@ -1,2 +1,3 @@
-(* Corr/C01Run.v — C01 uses the shared L1 correspondence evaluator. *)
-From GL Require Export Corr.LsmRun.
+(* Corr/C01Run.v — C01 uses the shared L1 correspondence evaluator (KGet cases: lsmcase / mismatches) and the
+   byte-level read-path evaluator (KBytes cases: c01bcase / bmismatches). *)
+From GL Require Export Corr.LsmRun Corr.C01BytesRun.
